@@ -1,1 +1,16 @@
-fn main() { let _ = vcommon::Ctx::from_args(); }
+mod c38;
+mod c39;
+mod util;
+
+fn main() {
+    let ctx = vcommon::Ctx::from_args();
+    ctx.watchdog(ctx.pick(900, 7200));
+    match ctx.prop.as_str() {
+        "C38" => c38::run(&ctx),
+        "C39" => c39::run(&ctx),
+        p => {
+            println!("INCONCLUSIVE vh-afc does not serve {p}");
+            std::process::exit(2);
+        }
+    }
+}
